@@ -40,3 +40,13 @@ class Models(object):
             self.check.analysed(m.fi)
             self.check.analysed(m.pub)
         return self._c['k']
+
+
+def rule_posindex(check, rule):
+    """statement-level form of the index-coherence rule (zero-expected: the self-test keeps a positive example)"""
+    from ..rules_derived import rule_positional_index
+    keys = [fi.key for fi in check.repo.all_funcs() if fi.module.name in ('_signatures', 'modifiers', '_autoforwards')]
+    n = rule_positional_index(check, rule, keys)
+    if not n:
+        check.holds(rule, 'sigtools/_signatures.py:0 _signatures', 'no positional (name -> position) index is derived from a parameter list in '
+                    '%d functions: nothing can go stale' % len(keys), key='posindex|none', nontrivial=False)
